@@ -903,7 +903,15 @@ fn format_subexpression(
                 format_unary_op(op, output)?;
             } else {
                 format_unary_op(op, output)?;
+                let operator_end = output.len();
                 format_subexpression(inner, prec, OperatorSide::Right, output, context)?;
+                // Keep apart operator characters that would otherwise merge into another token: - -x is not --x
+                let last_operator_char = output[..operator_end].chars().next_back();
+                if last_operator_char == output[operator_end..].chars().next()
+                    && matches!(last_operator_char, Some('+' | '-' | '&'))
+                {
+                    output.insert(operator_end, ' ');
+                }
             }
         }
         ast::Expression::BinaryOperation(op, left, right) => {
